@@ -625,6 +625,10 @@ def oracle(inp):
                 newer = any(k2 == L_SERVE and s2 == 0 for k2, s2 in zip(kinds[i + 1:], st[i + 1:]))
                 if serving and not newer:
                     return f"shutdown returned while the server is still serving [kind={kind} labels={labels[:step + 1]}]"
+                older_running = any(k2 == L_SERVE and s2 == 0 for k2, s2 in zip(kinds[:i], st[:i]))
+                if older_running:
+                    return (f"shutdown returned while the serve_forever call it stopped has not returned "
+                            f"[kind={kind} labels={labels[:step + 1]}]")
         if closed_ok_at is None and any(k == L_CLOSE and s == 1 for k, s in zip(kinds, st)):
             closed_ok_at = step
         if closed_ok_at is not None and listening:
